@@ -400,6 +400,23 @@ class CFG:
                         work.append(t)
         return out
 
+    def strict_guards(self, nid):
+        """(test id, label) pairs such that `nid` executes ONLY after that branch was
+        taken: the test dominates nid and nid is unreachable from the test's other
+        successors (without passing the test again)."""
+        out = set()
+        for t, lab in self.guards(nid):
+            if not self.dominates(t, nid) or t == nid:
+                continue
+            others = [s for s, l in self.nodes[t].succ if l != lab and l != 'exc']
+            blocked = True
+            for o in others:
+                if o == nid or nid in self.reach(o, avoid={t}, flags=False):
+                    blocked = False
+            if blocked:
+                out.add((t, lab))
+        return out
+
     # -- reaching definitions --------------------------------------------------
     @staticmethod
     def _targets(node):
